@@ -53,6 +53,9 @@ func runC02(c *Ctx, w *World, r *Report) {
 	r.Rule("R-HALVING", "each step of the in-word search that tests popcount of the low W bits (W = 32, 16, 8) skips exactly W bits on its taken edge: offset |= W (or += W) and word >>= W with the same W")
 	r.Rule("R-RANKSKIP", "Select32R64 advances the word while rankIndex[word+1] <= i and then searches for the (i - rankIndex[word])-th one of that word")
 
+	// the rank index Select32R64 walks is built by IndexRank64 (R-SAMEARG): its builder rules are part of this property
+	reportRankBuilders(w, r, fns, "bitmap.IndexRank64")
+
 	// ---- R-BUILDER
 	builderMask := map[string]int{}
 	for _, n := range []string{"bitmap.IndexSelect32", "bitmap.IndexSelect32R64"} {
@@ -452,6 +455,43 @@ func runC02(c *Ctx, w *World, r *Report) {
 			badH = fmt.Sprintf("expected the 32- and 16-bit halving steps, found %d", nstep)
 		}
 		r.Check(badH == "", "R-HALVING", rn, w.Pos(fn.Pos()), badH, fmt.Sprintf("%d halving steps, each with equal popcount width, shift and offset", nstep))
+	}
+	// ---- R-SELRESULT
+	r.Rule("R-SELRESULT", "every value Select32 / Select32R64 return as the position of the i-th one is 64*K + in-word offset, the offset being exactly one byte lookup in the package's select table plus the widths skipped by the halving steps: a position produced any other way (e.g. a shortcut that adds the remaining rank to the check point) is not tied to the word whose popcount prefix contains i")
+	for _, rn := range []string{"bitmap.Select32", "bitmap.Select32R64"} {
+		fn := fns[rn]
+		fa := w.FA(fn)
+		bad := ""
+		nsrc := 0
+		for _, ret := range returnsOf(fn) {
+			if len(ret.Results) != 2 {
+				continue
+			}
+			for _, L := range fa.LinAlts(ret.Results[0], 16) {
+				nsrc++
+				nLook, has64 := 0, false
+				for atom, cf := range L.T {
+					if tab, _, ok := asElemLoad(fa.AtomValue(atom)); ok && isGlobal(tab, "bitmap", "select8Lookup") {
+						if cf == 1 {
+							nLook++
+						} else {
+							nLook = -100
+						}
+						continue
+					}
+					if cf == 64 {
+						has64 = true
+					}
+				}
+				if nLook != 1 || !has64 {
+					bad = fmt.Sprintf("a returned position of the i-th one is %s at %s: not 64*word + select-table offset", L, w.InstrPos(ret))
+				}
+			}
+		}
+		if nsrc == 0 && bad == "" {
+			bad = "no returned position found"
+		}
+		r.Check(bad == "", "R-SELRESULT", rn, w.Pos(fn.Pos()), bad, fmt.Sprintf("%d result sources, each 64*word + select8Lookup[..] + skipped widths", nsrc))
 	}
 	// ---- R-RANKSKIP
 	{
